@@ -5,10 +5,12 @@ import Driver.BtcpD
 import Driver.UxD
 import Driver.AttrAccD
 import Driver.ApiD
+import Driver.CtlD
 
 def main (args : List String) : IO UInt32 := do
   match args with
   | ["attrmap"] => Driver.AttrMapD.main; return 0
+  | ["ctl"] => Driver.CtlD.main; return 0
   | ["api"] => Driver.ApiD.main; return 0
   | ["attracc"] => Driver.AttrAccD.main; return 0
   | ["ux"] => Driver.UxD.main; return 0
